@@ -77,6 +77,18 @@ def run(ctx) -> None:
         big = hazard[:12] + rest[:14]
     cases = small + big
     cases += [random_history(rnd, big=(k % 10 == 0)) for k in range(300 if ctx.quick else 3000)]
+    # histories that write the same block again after something else touched its bytes (the order of writes, not
+    # their content, decides what a patcher ends up with), and histories with no non-empty block at all
+    for hdr in (False, True):
+        for X in (0x1000, 0x8000 - 3, EOF - 0x40, 0x7FFFF0):
+            A = {"addr": X, "len": 6, "seed": 0x11, "step": 1}
+            for B in ({"addr": X + 2, "len": 3, "seed": 0xB0, "step": 1}, {"addr": X - 1, "len": 4, "seed": 0xC0, "step": 3},
+                      {"addr": X, "len": 6, "seed": 0xD0, "step": 1}, {"addr": X + 6, "len": 2, "seed": 0xE0, "step": 1}):
+                cases.append({"header": hdr, "writes": [dict(A), dict(B), dict(A)]})
+                cases.append({"header": hdr, "writes": [dict(A), dict(B), dict(A), dict(B)]})
+            cases.append({"header": hdr, "writes": [dict(A), dict(A)]})
+        cases.append({"header": hdr, "writes": []})
+        cases.append({"header": hdr, "writes": [{"addr": 0x8000, "len": 0, "seed": 0, "step": 1}]})
     res = Pool().map("ips_write", cases, timeout=120)
     recs = []
     for k, (c, o) in enumerate(zip(cases, res)):
